@@ -14,14 +14,19 @@ probe_fast_path = A.probe_fast_path
 
 DISPATCH = {
     "pbkdf2": A.t_pbkdf2, "pbkdf2-values": A.t_pbkdf2_values, "pbkdf2-misc": A.t_pbkdf2_misc,
-    "pbkdf1": A.t_pbkdf1, "pbkdf1-misc": A.t_pbkdf1_misc,
+    "pbkdf2-lens": A.t_pbkdf2_lens, "pbkdf2-values2": A.t_pbkdf2_values2, "pbkdf2-counts": A.t_pbkdf2_counts,
+    "pbkdf1-counts": A.t_pbkdf1_counts,
+    "pbkdf1": A.t_pbkdf1, "pbkdf1-misc": A.t_pbkdf1_misc, "pbkdf1-lens": A.t_pbkdf1_lens,
     "hkdf-grid": A.t_hkdf_grid, "hkdf-bound": A.t_hkdf_bound, "hkdf-lens": A.t_hkdf_lens,
-    "sp108": A.t_sp108, "sp108-misc": A.t_sp108_misc,
+    "hkdf-all": A.t_hkdf_all, "hkdf-bound2": A.t_hkdf_bound2, "hkdf-lines": A.t_hkdf_lines,
+    "sp108": A.t_sp108, "sp108-misc": A.t_sp108_misc, "sp108-ctr": A.t_sp108_ctr, "sp108-lines": A.t_sp108_lines,
     "scrypt-grid": B.t_scrypt_grid, "scrypt-lens": B.t_scrypt_lens, "scrypt-big": B.t_scrypt_big,
     "scrypt-refuse": B.t_scrypt_refuse,
+    "scrypt-grid2": B.t_scrypt_grid2, "scrypt-lens2": B.t_scrypt_lens2, "scrypt-kl": B.t_scrypt_kl,
+    "scrypt-big2": B.t_scrypt_big2, "scrypt-refuse2": B.t_scrypt_refuse2,
     "bcrypt-hash": B.t_bcrypt_hash, "bcrypt-refuse": B.t_bcrypt_refuse, "bcrypt-check": B.t_bcrypt_check,
-    "bcrypt-mut": B.t_bcrypt_mut,
-    "s2v": B.t_s2v, "s2v-limit": B.t_s2v_limit, "s2v-hist": B.t_s2v_hist,
+    "bcrypt-mut": B.t_bcrypt_mut, "bcrypt-mut2": B.t_bcrypt_mut2,
+    "s2v": B.t_s2v, "s2v-limit": B.t_s2v_limit, "s2v-hist": B.t_s2v_hist, "s2v-hist2": B.t_s2v_hist2,
 }
 
 
@@ -69,6 +74,87 @@ def replay(case, acc):
 
 
 def grid_description(quick):
+    g = _grid_quick_or_base(quick)
+    if not quick:
+        t = g["thorough_additions"] = {}
+        t["pbkdf2"] = {
+            "dkLen": "every value 1..8*hLen+1 (instead of 3*hLen+1) for counts 1,2,3 (all paths) and count 1000 (C fast path) "
+                     "on the full 6x6 length grid",
+            "extra_counts": "counts %s on every path (+ %s on the C fast path): every dkLen 1..3*hLen+1 on the cross of the "
+                            "length grid (one of password/salt length varies, the other is 1)"
+                            % (list(A.PB_EXTRA_COUNTS), list(A.PB_EXTRA_COUNTS_FAST)),
+            "block_counter": "dkLen in {254h+1, 255h, 255h+1, 256h, 256h+1, 257h} (block counters 255, 256, 257) x counts {1,2} x "
+                             "2 length shapes for every hash/PRF; dkLen 65536*hLen+1 (65537 blocks) for " + ", ".join(A.PB_64K),
+            "length_product": "every password length 0..2B+1 x every salt length 0..2B+1 (B = HMAC block size; CMAC-AES: key "
+                              "lengths 16/24/32 x salt 0..33), counts %s, dkLen in {hLen, hLen+1}" % list(A.PB_LENS_COUNTS),
+            "values": "4x4 value alphabet on 4 password lengths x 3 salt lengths x counts {1,3} x dkLen {h-1, 2h+1}",
+            "all_counts": "every iteration count 1..%d on the C fast path, 1..%d on the generic and custom-PRF paths, for every "
+                          "hash/PRF on one shape (password B+1 bytes, salt 16 bytes, dkLen hLen+1)"
+                          % (A.PB_ALLCOUNTS["fast"], A.PB_ALLCOUNTS["generic"]),
+        }
+        t["pbkdf1"] = {"extra_counts": list(A.PBKDF1_EXTRA_COUNTS),
+                       "all_counts": "every iteration count 1..%d for every hash (dkLen hLen-1, hLen)" % A.PBKDF1_ALLCOUNTS,
+                       "password_lengths": "every length 0..2B+1 (B = block size of the hash) for counts 1,2,3, dkLen "
+                                           "{0,1,h-1,h} and h+1 refused; 4 salt values at the boundary lengths"}
+        t["hkdf"] = {
+            "all_lengths": "every key_len 0..255*hLen+2 (num_keys 1) for every hash: 0..255*hLen compared, the last two refused",
+            "num_keys": "grid: num_keys %s x key_len 1..3*hLen+1 on the 5x5 salt/context product" % list(A.HKDF_NK[False]),
+            "many_keys": "num_keys {5,6,7,8,16,255} x key_len floor(255h/nk)-1..+1; (h-1)x255, h x 256 (refused), 1 x {255h-1, 255h, "
+                         "255h+1}, 2 x {floor(255h/2), +1}, 255 x h, 256 x h (refused), 255 x (h+1) (refused), 254 x h, "
+                         "1 x 256, 1 x 257",
+            "length_sweeps": "every master length 0..2B+1 x 3 salts; every salt length 0..2B+1 x 2 master lengths; every context "
+                             "length 0..2B+1 x 4 (key_len, num_keys) shapes",
+        }
+        t["sp800_108"] = {
+            "key_len": "num_keys None: every key_len 1..6h+1; num_keys 1 and %s: every key_len 1..3h+1; on the full 5x5 "
+                       "label/context product and all master lengths" % list(A.SP_NK[False]),
+            "counter": "254h+1, 255h, 255h+1, 256h, 256h+1, 257h bytes as one key; h x {255,256,257}, (h+1) x 255, 1 x {255h+1, "
+                       "256h+1}, 255 x (h+1), 257 x h; 65537 PRF blocks (as one key and as 65537 keys of h bytes) for "
+                       + ", ".join(A.SP_64K),
+            "length_sweeps": "every label length 0..2B+1, every context length 0..2B+1, label n with context 2B+1-n, every master "
+                             "length 0..2B+1 (HMAC and BLAKE2b PRFs) x 3 (key_len, num_keys) shapes",
+        }
+        t["scrypt"] = {
+            "grid": "N %s x r %s x p %s x key_len %s (num_keys 1) and num_keys 2..4 x key_len {1,32,33} (replaces the base grid)"
+                    % ("2^1..2^14", "1..16 (all)", list(B.SCRYPT_P_T), list(B.SCRYPT_KL_T)),
+            "large": [{"N": c[4], "r": c[5], "p": c[6], "key_len": c[3], "num_keys": c[7]} for c in B._SCRYPT_BIG_T],
+            "length_product": "every password length 0..%d x every salt length 0..%d at N=2, r=1, p=1, key_len 33"
+                              % (B.SCRYPT_LENS_T, B.SCRYPT_LENS_T),
+            "key_len": "every key_len 1..200 at (4,1,1) and (8,2,2); num_keys 1..8 x key_len {1,16,31,32,33,64,65} at (4,1,1) and "
+                       "(16,1,2); num_keys {16,33,100} x key_len {5,32}",
+            "refusals": "every N in 0..2^20-1 that is not a power of two; every N with exactly two bits set below 2^65; 2^k-1 and "
+                        "-(2^k) for k <= 128; N = 2^k for every k in 32..128; p above the RFC 7914 bound "
+                        "(+1, +2, 2*limit+1, 2^32, 2^64) for r = 2^0..2^30 and r in {3,5,7,9,100,1000,12345}",
+        }
+        t["bcrypt"] = {
+            "cost4": "password lengths 0..72 all, four value classes (ascending/seeded salt, high-bit/ascending salt, seeded "
+                     "non-zero/zero salt, 0xFF/0xFF salt); salts with a single 0xFF or 0x01 byte at each of the 16 positions; "
+                     "text passwords of 1..24 euro signs (3..72 bytes of UTF-8), 1/35/36 e-acute, 69 ASCII + euro sign",
+            "other_costs": {str(k): ("password lengths 0..72 all" if v == "all" else "password lengths %s" % list(v))
+                            + (", two value classes" if k <= 7 else "") for k, v in sorted(B.BCRYPT_COSTS_T.items())},
+            "bcrypt_check": "additional groups (every password x every hash): all lengths 0..72 with a 0xFF salt (cost 4) and an "
+                            "ascending salt (cost 5) and a zero salt (cost 6); all lengths 0..72 of high-bit passwords (cost 4); "
+                            "the 24 base passwords at cost 7",
+            "mutations": "each of the 31 hash characters and each of the 22 salt characters replaced by every one of the 63 other "
+                         "alphabet characters and by 8 characters outside the alphabet (salt substitutions decided by the "
+                         "reference); every two-digit cost field 00..08 and 32..99 (09..31 not evaluated: too slow) and 12 "
+                         "malformed cost fields; 13 substitutions in each of the 5 prefix/separator positions",
+        }
+        t["s2v"] = {
+            "components": "every vector of 0..4 components with lengths in %s (4681 vectors per key, replaces the base set); "
+                          "every vector of exactly 5 components with lengths in %s (7776 per key); every single length 0..%d "
+                          "and every pair of lengths in 0..%d x 0..%d; 12 keys (AES-128/192/256 x 4 value classes)"
+                          % (list(B.S2V_LENS_T), list(B.S2V_LENS), B.S2V_SINGLE_TOP, B.S2V_PAIR_TOP, B.S2V_PAIR_TOP),
+            "object_histories": "one _S2V object: every sequence of 1..d update(n bytes) / derive() calls containing a "
+                                "derive(), for (d, AES key length, alphabet) in %s with alphabets %s (replaces the base "
+                                "exploration); %s histories"
+                                % ([list(x) for x in B.S2V_HIST_T], {k: list(v) for k, v in B.S2V_ALPHA.items()},
+                                   [B.s2v_hist_count(d, len(B.S2V_ALPHA[al])) for d, _, al in B.S2V_HIST_T]),
+        }
+    return g
+
+
+def _grid_quick_or_base(quick):
     return {
         "pbkdf2": {
             "hashes": A.pbkdf2_labels(),
@@ -76,43 +162,45 @@ def grid_description(quick):
                                          + ("full 6x6 product (cross = one varies, other = 1, for hash objects and for count 1000)"
                                             if quick else "full 6x6 product"),
             "counts": [1, 2, 3, 1000],
-            "dkLen": "every value 1..3*hLen+1 for counts 1,2,3 (all paths) and for count 1000 on the C fast path; "
-                     "count 1000 on the generic/prf paths: {1,h-1,h,h+1,2h,2h+1,3h,3h+1}"
-                     + ("" if quick else " on the full length grid plus every dkLen on three shapes"),
+            "dkLen": "every value 1..%d*hLen+1 for counts 1,2,3 (all paths) and for count 1000 on the C fast path; "
+                     "count 1000 on the generic/prf paths: {1,h-1,h,h+1,2h,2h+1,3h,3h+1}" % A.PB_DK_BLOCKS[bool(quick)]
+                     + ("" if quick else " on the full length grid plus every dkLen 1..3*hLen+1 on three shapes"),
             "values": "4x4 value alphabet for (password, salt) per hash; text inputs; defaults",
         },
         "pbkdf1": {"hashes": list(A.PBKDF1_HASHES), "counts": [1, 2, 3, 1000],
                    "password_lengths": [0, 1, 55, 56, 64, 65, 200], "dkLen": "0..hLen all; hLen+1,hLen+2,2hLen,1000 refused",
                    "salt_lengths_refused": [0, 1, 7, 9, 16]},
-        "hkdf": {"hashes": A.hkdf_labels(), "key_len": "0..3*hLen+1 all (num_keys 1); num_keys 2..4 x key_len 1..%s"
-                 % ("hLen+1" if quick else "3*hLen+1"),
+        "hkdf": {"hashes": A.hkdf_labels(), "key_len": "0..3*hLen+1 all (num_keys 1); num_keys 2..%d x key_len 1..%s"
+                 % (A.HKDF_NK[bool(quick)][-1], "hLen+1" if quick else "3*hLen+1"),
                  "salt": "None, empty, 1, hLen, B+1 bytes", "context": "None, empty, 1, 10, 200 bytes"
                  + (" (cross)" if quick else " (5x5 product)"),
                  "boundaries": "254h, 255h-1, 255h accepted; 255h+1, 255h+2, 256h, 510h refused; num_keys 2..4 with "
                                "key_len floor(255h/nk)-1, .., +1",
                  "master_x_salt_lengths": "{0,1,B-1,B,B+1,200}^2", "values": "4x4 alphabet"},
-        "scrypt": {"N": B.SCRYPT_N, "r": list(B.SCRYPT_R), "p": list(B.SCRYPT_P), "key_len": list(B.SCRYPT_KL),
+        "scrypt": {"N": B.SCRYPT_N if quick else B.SCRYPT_N_T, "r": list(B.SCRYPT_R if quick else B.SCRYPT_R_T),
+                   "p": list(B.SCRYPT_P if quick else B.SCRYPT_P_T), "key_len": list(B.SCRYPT_KL if quick else B.SCRYPT_KL_T),
                    "num_keys": "1; 2..4 x key_len {1,32,33}", "password_x_salt_lengths": "{0,1,63,64,65,200}^2",
                    "refusals": "every N in 0..2050 that is not a power of two, 2^k+-1 and 3*2^k for k<=40, negative; "
                                "N in {2^32,2^33,2^40,2^64,2^100}; p above the RFC 7914 bound for r in "
                                "{1,8,2^20,2^25,2^30}"},
         "bcrypt": {"cost4_password_lengths": "0..72 all (two value classes)" if not quick else
                    "0-5,8,17-19,35-37,54-57,70,71,72 + high-bit class {1,3,4,5,71,72}",
-                   "other_costs": "5, 6" + ("" if quick else ", 7"),
+                   "other_costs": "5, 6" if quick else "5..12 (see thorough_additions)",
                    "refusals": "cost {3,32,2,1,0,-1,-4,33,64,100,2^31,2^32+4}; salt length {15,17,0,1,8,32,22}; "
                                "password length {73,74,100,144,1000} and 75 bytes of UTF-8; embedded NUL",
                    "bcrypt_check": "every password x every hash of %s; mutated hashes: every "
                                    "hash character x 3 substitutions, truncations/extensions, cost field, "
                                    "%s salt characters, prefixes" % (
                                        "3 groups of 24 passwords" if quick else
-                                       "5 groups of 24 passwords and one group of 73 (all lengths 0..72)",
+                                       "6 groups of 24 passwords and 5 groups of 73 (all lengths 0..72)",
                                        "3" if quick else "all 22")},
-        "sp800_108": {"prfs": list(A.SP_PRFS), "key_len": "1..3h+1 all (num_keys None%s); num_keys 2..4 x key_len 1..%s"
-                      % (("", "h+1") if quick else (" and 1", "3h+1")),
+        "sp800_108": {"prfs": list(A.SP_PRFS), "key_len": "1..3h+1 all (num_keys None%s); num_keys 2..%d x key_len 1..%s"
+                      % (("", 4, "h+1") if quick else (" [None: up to 6h+1] and 1", A.SP_NK[False][-1], "3h+1")),
                       "labels_x_contexts": "5x5 incl. 200 bytes and zero bytes" + (" (cross)" if quick else "")},
         "s2v": {"keys": "AES-128/192/256", "components": "every vector of 0..4 components with lengths in "
-                + str(list(B.S2V_LENS)) + " (1555 vectors per key); 5/126/127 components; 128th refused",
+                + (str(list(B.S2V_LENS)) + " (1555 vectors per key)" if quick else
+                   str(list(B.S2V_LENS_T)) + " (4681 vectors per key)") + "; 5/126/127 components; 128th refused",
                 "key_value_classes": 4 if quick else 12,
                 "object_histories": "one _S2V object: every sequence of up to %d update(0|5|16|17 bytes) / derive() calls; every "
-                                    "derive() equals S2V of the components fed so far" % (5 if quick else 6)},
+                                    "derive() equals S2V of the components fed so far" % (5 if quick else max(x[0] for x in B.S2V_HIST_T))},
     }
